@@ -394,12 +394,16 @@ func (s *Scenario) Run() {
 			s.checkPollAny()
 		case 4:
 			d := waits[s.t.Pick("wait", len(waits))]
-			if s.p.LongWaits && s.t.Weighted("long", 14, 1) == 1 {
+			lw := 14
+			if s.p.Prop == "C20" {
+				lw = 3
+			}
+			if s.p.LongWaits && s.t.Weighted("long", lw, 1) == 1 {
 				d = 25 * time.Hour
 				s.t.Class("advance-25h")
 			}
 			s.t.Note("#%d advance %v", s.w.step, d)
-			s.w.Advance(d)
+			s.AdvanceChecked(d)
 			s.observeSettled()
 		case 5:
 			s.checkScan()
@@ -420,19 +424,43 @@ func (s *Scenario) Run() {
 	}
 }
 
-func (s *Scenario) stepClean() {
+// AdvanceChecked lets simulated time pass; the periodic cleaner (every 30
+// minutes) may run meanwhile, so the staging area is compared as for an
+// explicit cleaning call.
+func (s *Scenario) AdvanceChecked(d time.Duration) {
+	if d < 30*time.Minute {
+		s.w.Advance(d)
+		return
+	}
+	s.w.Settle()
+	s.observe()
+	s.w.restamp()
 	before := s.snapshotStage()
+	s.w.Advance(d)
+	s.w.cleans = append(s.w.cleans, time.Now())
+	s.checkClean(before)
+}
+
+func (s *Scenario) stepClean() {
 	if s.t.Weighted("cleanKind", 3, 1) == 0 {
+		before := s.snapshotStage()
 		s.t.Note("#%d CleanNow", s.w.step)
 		s.w.st.CleanNow()
 		s.w.cleans = append(s.w.cleans, time.Now())
+		s.checkClean(before)
 	} else {
+		// directory times are written by the kernel in real time; bring them
+		// to simulated time first (nothing may run in between)
+		s.w.Settle()
+		s.observe()
+		s.w.restamp()
+		before := s.snapshotStage()
 		age := []time.Duration{0, time.Hour, 24 * time.Hour}[s.t.Pick("pruneAge", 3)]
 		s.t.Note("#%d Prune(%v)", s.w.step, age)
 		s.w.st.Prune(age)
 		s.checkPrune(before, age)
+		s.checkClean(before)
 	}
-	s.checkClean(before)
 	s.t.Class("clean")
 }
 
